@@ -36,7 +36,7 @@ for name in sorted(os.listdir(src)):
     if only and name not in only:
         continue
     pid = name.split('_')[0]
-    neutral = name.endswith('_N')
+    neutral = bool(__import__('re').search(r'_N\d*$', name))
     r = {'property': pid, 'kind': 'neutral' if neutral else 'mutant'}
     sh('git -C %s checkout -- .' % REPO, 60)
     rc, o, _ = sh('git -C %s apply %s' % (REPO, os.path.join(d, 'patch.diff')), 60)
